@@ -196,6 +196,27 @@ def model(chk, p):
     chk.model("MetaBeforeCommit=TRUE", t, "regression: meta before commit violates MetaWrittenAfterCommit (expected)")
 
 
+def inductive(chk):
+    """C15's safety for ANY number of shipped documents and any number of faults and kills: the inductive invariant of
+    spec/StoreInd.tla, discharged by Apalache (initiation, consecution, implication), and its control: under the protocol
+    as pinned (no invalidation) the same invariant must NOT be inductive."""
+    obligations = [("Init", "IndInv", 0, "ConstInit", "ok", "Init => IndInv"),
+                   ("IndInit", "IndInv", 1, "ConstInit", "ok", "IndInv /\\ Next => IndInv'"),
+                   ("IndInit", "Safety", 0, "ConstInit", "ok", "IndInv => AnswersAsFresh /\\ DirNeverAhead"),
+                   ("IndInit", "IndInv", 1, "ConstInitPinned", "error", "control: without invalidation IndInv is not inductive"),
+                   ("IndInit", "IndInv", 1, "ConstInitMetaFirst", "error", "control: with write_meta before the commit IndInv is not inductive")]
+    done = []
+    for init, inv, length, cinit, want, what in obligations:
+        outcome, wall, tail = vlib.apalache("StoreInd", init, inv, length, cinit=cinit)
+        if outcome != want:
+            if want == "ok":
+                raise ToolError("the inductive invariant of StoreInd.tla does not hold (%s):\n%s" % (what, tail))
+            raise ToolError("StoreInd.tla no longer discriminates (%s)" % what)
+        done.append({"obligation": what, "outcome": outcome, "wall_s": round(wall, 1)})
+    chk.cov["inductive_invariant"] = {"module": "StoreInd.tla", "tool": "apalache-mc 0.58", "parameters": "NDocs >= 1 arbitrary, faults and kills unbounded",
+                                      "obligations": done}
+
+
 def emit(chk, p):
     w = vlib.workdir("c15-emit")
     cfg = os.path.join(w, "emit.cfg")
@@ -247,6 +268,7 @@ def run(chk):
     p = TIERS[chk.tier]
     vlib.build_harness("release")
     model(chk, p)
+    inductive(chk)
     vecs = emit(chk, p)
     total = len(vecs)
     if total > p["cap"]:
